@@ -25,3 +25,8 @@ claimed["C02"] = dict(engine="engine-I", category="model_checking",
   text="every valid single-record CIGAR (<=3/4 operators) at every POS; every master alignment over M/I/D (<=4/5 operators) cut into 2 (3) records at every cut point (adjacent, separated, overlapping), hard- and soft-clipped, both file orders; every window x omit-reference x skip-insertions x directory/stdout x wrap x threads on representative files; every ordered pair of option settings run into one output directory; each row compared with an independent pairwise model and, oracle-free, with the real --skip-insertions and toMultiAlign --pad outputs",
   note="trusted: pairwise model in harness/ref_sam.go; 'non-conflicting' = disjoint or match-only overlaps; biogo/hts parser; small-scope argument beyond the bounds",
   design_ref="DESIGN.md 3 (C02)")
+claimed["C05"] = dict(engine="engine-I", category="model_checking",
+  technique="bounded-exhaustive enumeration of alignment column patterns on the real entry points vs. reference-coordinate indel model + metamorphic both-gap relation",
+  text="every alignment of <=7 (thorough 9) columns over the five column kinds (match, mismatch, insertion, deletion, gap/gap) through `variants` and, without gap/gap, through `sam variants`; ins:/del: records compared with a model in degapped reference coordinates; and, oracle-free, the whole mutation list must not change when gap/gap columns are removed; all width-5 patterns replayed through the real binary",
+  note="trusted: indel model in harness/c05.go; small-scope argument: the scan keeps only run-open flags and counters, all of whose transitions occur within 7 columns",
+  design_ref="DESIGN.md 3 (C05)")
